@@ -27,7 +27,7 @@ def jobs(tier):
                          unwind=max(nobj, nf, ncl, ne) + 3, functions=["LDAPrediction"],
                          bound="concrete shape %s; all scores arbitrary (oracle)" % tag,
                          clause="prediction: in-bounds, label in training range, arg-max of stored scores (labels from %d)" % cs))
-    for (nobj, ncl) in ([(3, 3), (2, 2), (4, 3)] if tier == "quick" else [(3, 3), (2, 2), (4, 3), (4, 4), (5, 3)]):
+    for (nobj, ncl) in ([(3, 3), (2, 2), (4, 3)] if tier == "quick" else [(3, 3), (2, 2), (4, 3), (4, 2), (3, 2)]):
         d = {"VC_NOBJ": nobj, "VC_NCLASS": ncl}
         tag = "nobj=%d,ncl=%d" % (nobj, ncl)
         J.append(Job("LDAMulticlassStatistics@" + tag, "C08/lda_labels.c", entry="h_LDAMulticlassStatistics", srcs=SRCS, kind="bounded", defines=d,
